@@ -62,6 +62,62 @@ func writesInput(s ast.Stmt) bool {
 	return bad
 }
 
+// isFCall: a method call on the file decorator, f.M(...)
+func isFCall(e ast.Expr) bool {
+	c, ok := e.(*ast.CallExpr)
+	if !ok {
+		return false
+	}
+	se, ok := c.Fun.(*ast.SelectorExpr)
+	if !ok {
+		return false
+	}
+	x, ok := se.X.(*ast.Ident)
+	return ok && x.Name == "f"
+}
+
+// fCallsChecked: every call of a method of the file decorator inside s (each can reach the
+// identifier resolver) is the right-hand side of "..., err := f.M(...)" and is immediately
+// followed by "if err != nil { return nil, err }" -- in its own block, or for a top-level
+// assignment by the next statement of the case.  A call whose error is discarded, or that is
+// buried in an expression, fails the check.
+func fCallsChecked(s ast.Stmt, next ast.Stmt) bool {
+	checkedCalls := map[*ast.CallExpr]bool{}
+	mark := func(st ast.Stmt, nx ast.Stmt) {
+		as, ok := st.(*ast.AssignStmt)
+		if !ok || len(as.Rhs) != 1 || !isFCall(as.Rhs[0]) || len(as.Lhs) < 2 {
+			return
+		}
+		if id, ok := as.Lhs[len(as.Lhs)-1].(*ast.Ident); !ok || id.Name != "err" {
+			return
+		}
+		if nx != nil && errCheck(nx) {
+			checkedCalls[as.Rhs[0].(*ast.CallExpr)] = true
+		}
+	}
+	mark(s, next)
+	ast.Inspect(s, func(x ast.Node) bool {
+		if b, ok := x.(*ast.BlockStmt); ok {
+			for i, st := range b.List {
+				var nx ast.Stmt
+				if i+1 < len(b.List) {
+					nx = b.List[i+1]
+				}
+				mark(st, nx)
+			}
+		}
+		return true
+	})
+	ok := true
+	ast.Inspect(s, func(x ast.Node) bool {
+		if c, isCall := x.(*ast.CallExpr); isCall && isFCall(c) && !checkedCalls[c] {
+			ok = false
+		}
+		return true
+	})
+	return ok
+}
+
 func typeName(e ast.Expr) string {
 	s := src(e)
 	s = strings.TrimPrefix(s, "*")
@@ -80,6 +136,15 @@ func decStmts(body []ast.Stmt, where string) []string {
 		if writesInput(s) {
 			noteUnknown(where, "assigns through the input ast: "+t)
 			out = append(out, "NWritesInput "+q(t))
+			continue
+		}
+		var next ast.Stmt
+		if i+1 < len(body) {
+			next = body[i+1]
+		}
+		if !fCallsChecked(s, next) {
+			noteUnknown(where, "a call into the file decorator whose error is not checked at once: "+t)
+			out = append(out, "NUnknown "+q(t))
 			continue
 		}
 		// the SelectorExpr special case
